@@ -7,7 +7,7 @@ import FinProtoc.IR
 nothing else (no variable names beyond consistency, no boilerplate).
 -/
 namespace FinProtoc.Conforms
-open FinProtoc FinProtoc.IR
+open FinProtoc FinProtoc.IR FinProtoc.Wire
 
 /-- the pad arguments of an emitted fixed-string call agree with the declared pad:
 the argument-less variant means "space on the right" -/
@@ -47,8 +47,7 @@ def isCallKind : FKind → Bool
 
 /-- position of the first field called `name` -/
 def fieldIdx (fs : List Field) (name : String) : Option Nat :=
-  let i := fs.findIdx (·.name = name)
-  if i < fs.length then some i else none
+  if fs.findIdx (·.name = name) < fs.length then some (fs.findIdx (·.name = name)) else none
 
 /-- steps for the fields `fs` (a suffix of the packet's fields `all`) starting at member position `i` -/
 def confFieldsE (S : Schema) (all : List Field) : Nat → List Field → List EStep → Bool
@@ -86,27 +85,14 @@ def elemOkD (S : Schema) (k : FKind) : Elem → Bool
   | .fixed n pad => match k with | .fixed n' p => n = n' && padArgOk p pad | _ => false
   | .object ty => k = .obj ty
 
-def sameKey (kw : Option Nat) : Key → Key → Bool
-  | .int a, .int b => match kw with | some w => a % 256 ^ w = b % 256 ^ w | none => false
-  | .str a, .str b => a = b
-  | _, _ => false
+/-- integer key literals are compared in the key's width -/
+def normKey (kw : Option Nat) : Key × String → Key × String
+  | (.int a, tgt) => (match kw with | some w => .int (a % 256 ^ w) | none => .int a, tgt)
+  | e => e
 
-/-- the generated table is the DSL's table as a finite map -/
+/-- the generated table lists the DSL's pairs (same keys up to the key width, same targets, same order) -/
 def tableOk (kw : Option Nat) (pairs : List (Key × String)) (t : Table) : Bool :=
-  t.keyWidth = kw && t.errOnMiss
-    && t.entries.all (fun e => pairs.any fun p => sameKey kw e.1 p.1 && e.2 = p.2)
-    && pairs.all (fun p => (t.entries.find? fun e => sameKey kw e.1 p.1).map (·.2) = some p.2)
-
-/-- byte width of the key field's type, `none` for a string key -/
-def keyWidthOf (fs : List Field) (key : String) : Option (Option Nat) :=
-  match fs.find? (·.name = key) with
-  | some f => if f.rep then none else
-    match f.kind with
-    | .scalar t => some (some t.width)
-    | .dyn => some none
-    | .fixed _ _ => some none
-    | _ => none
-  | none => none
+  t.keyWidth = kw && t.errOnMiss && t.entries.map (normKey kw) = pairs.map (normKey kw)
 
 def plainOkD (S : Schema) (P : Prog) (all : List Field) (i : Nat) (f : Field) (st : DStep) : Bool :=
   if f.rep then
